@@ -438,18 +438,26 @@ const maxResolveDepth = 100
 // lists the page), so a reference that is already being resolved is reported as an
 // error instead of being followed again, and the nesting depth is limited.
 func (r *Reader) ResolveDeep(obj core.Object) (core.Object, error) {
-	return r.resolveDeep(obj, make(map[int]bool), 0)
+	return r.resolveDeep(obj, make(map[int]bool), make(map[int]core.Object), 0)
 }
 
-func (r *Reader) resolveDeep(obj core.Object, resolving map[int]bool, depth int) (core.Object, error) {
+// resolveDeep expands obj. done holds the expansion of every indirect object that has been
+// expanded already in this call of ResolveDeep: an object referenced from several places is
+// expanded once and shared (an object graph with sharing would otherwise be copied once per
+// path, which is exponential in the number of objects).
+func (r *Reader) resolveDeep(obj core.Object, resolving map[int]bool, done map[int]core.Object, depth int) (core.Object, error) {
 	if depth > maxResolveDepth {
 		return nil, fmt.Errorf("maximum reference nesting depth (%d) exceeded", maxResolveDepth)
 	}
 
 	// First resolve if it's a reference
-	if ref, ok := obj.(core.IndirectRef); ok {
+	ref, isRef := obj.(core.IndirectRef)
+	if isRef {
 		if resolving[ref.Number] {
 			return nil, fmt.Errorf("circular reference to object %d", ref.Number)
+		}
+		if expanded, ok := done[ref.Number]; ok {
+			return expanded, nil
 		}
 		resolving[ref.Number] = true
 		defer delete(resolving, ref.Number)
@@ -464,22 +472,28 @@ func (r *Reader) resolveDeep(obj core.Object, resolving map[int]bool, depth int)
 	case core.Array:
 		result := make(core.Array, len(v))
 		for i, elem := range v {
-			resolvedElem, err := r.resolveDeep(elem, resolving, depth+1)
+			resolvedElem, err := r.resolveDeep(elem, resolving, done, depth+1)
 			if err != nil {
 				return nil, err
 			}
 			result[i] = resolvedElem
+		}
+		if isRef {
+			done[ref.Number] = result
 		}
 		return result, nil
 
 	case core.Dict:
 		result := make(core.Dict)
 		for key, val := range v {
-			resolvedVal, err := r.resolveDeep(val, resolving, depth+1)
+			resolvedVal, err := r.resolveDeep(val, resolving, done, depth+1)
 			if err != nil {
 				return nil, err
 			}
 			result[key] = resolvedVal
+		}
+		if isRef {
+			done[ref.Number] = result
 		}
 		return result, nil
 
